@@ -29,6 +29,8 @@ struct Scenario {
     flush_at: Option<usize>,
     may_ok: bool, // readers, corrupt input without an integrity check (raw LZMA2 bit flip): success is allowed, blocking is not
     ok_only_with: Option<Vec<u8>>, // readers, corrupt input with an integrity check: success is allowed only with exactly these bytes
+    preset: Option<Vec<u8>>, // LZMA2 reader / writer: preset dictionary
+    nice: Option<u32>,       // writers: nice_len override (out-of-range values: every call must still return; an error is fine)
 }
 
 /// what one execution observed (shared with the closure through a mutex)
@@ -46,6 +48,17 @@ fn lz_opts(dict: u32) -> LZMAOptions {
     o
 }
 
+fn lz_opts_sc(sc: &Scenario) -> LZMAOptions {
+    let mut o = lz_opts(sc.dict);
+    if let Some(n) = sc.nice {
+        o.nice_len = n;
+    }
+    if sc.kind == "lzma2w" {
+        o.preset_dict = sc.preset.clone().map(|p| p.into());
+    }
+    o
+}
+
 fn run_scenario(sc: &Scenario, obs: &Arc<Mutex<Obs>>) {
     let mut o = obs.lock().unwrap().clone();
     o.runs += 1;
@@ -56,7 +69,7 @@ fn run_scenario(sc: &Scenario, obs: &Arc<Mutex<Obs>>) {
                 let mut buf = vec![0u8; 700];
                 let mut calls = 0usize;
                 if sc.kind == "lzma2r" {
-                    let mut r = LZMA2ReaderMT::new(Cursor::new(sc.input.clone()), sc.dict, None, sc.workers);
+                    let mut r = LZMA2ReaderMT::new(Cursor::new(sc.input.clone()), sc.dict, sc.preset.as_deref(), sc.workers);
                     loop {
                         if let Some(n) = sc.reads_before_drop {
                             if calls >= n {
@@ -125,7 +138,7 @@ fn run_scenario(sc: &Scenario, obs: &Arc<Mutex<Obs>>) {
         _ => {
             let res: std::io::Result<Option<Vec<u8>>> = (|| {
                 if sc.kind == "lzma2w" {
-                    let mut opts = LZMA2Options { lzma_options: lz_opts(sc.dict), chunk_size: None };
+                    let mut opts = LZMA2Options { lzma_options: lz_opts_sc(sc), chunk_size: None };
                     opts.set_chunk_size(NonZeroU64::new(sc.unit));
                     let mut w = LZMA2WriterMT::new(Vec::new(), opts, sc.workers)?;
                     let mut off = 0;
@@ -142,7 +155,7 @@ fn run_scenario(sc: &Scenario, obs: &Arc<Mutex<Obs>>) {
                         Ok(None)
                     }
                 } else {
-                    let mut opts = LZIPOptions { lzma_options: lz_opts(sc.dict), member_size: None };
+                    let mut opts = LZIPOptions { lzma_options: lz_opts_sc(sc), member_size: None };
                     opts.set_member_size(NonZeroU64::new(sc.unit));
                     let mut w = LZIPWriterMT::new(Vec::new(), opts, sc.workers)?;
                     let mut off = 0;
@@ -165,7 +178,7 @@ fn run_scenario(sc: &Scenario, obs: &Arc<Mutex<Obs>>) {
                     // decode with the single-threaded reader: must give the input back
                     let mut out = Vec::new();
                     let r = if sc.kind == "lzma2w" {
-                        LZMA2Reader::new(comp.as_slice(), sc.dict, None).read_to_end(&mut out).map(|_| ())
+                        LZMA2Reader::new(comp.as_slice(), sc.dict, sc.preset.as_deref()).read_to_end(&mut out).map(|_| ())
                     } else {
                         LZIPReader::new(comp.as_slice()).and_then(|mut r| r.read_to_end(&mut out).map(|_| ()))
                     };
@@ -184,6 +197,8 @@ fn run_scenario(sc: &Scenario, obs: &Arc<Mutex<Obs>>) {
                     }
                 }
                 Ok(None) => {}
+                // out-of-range options: an error (from new, write, flush or finish) is the right answer
+                Err(_) if sc.nice.map(|n| !(8..=273).contains(&n)).unwrap_or(false) => {}
                 Err(e) => o.unexpected_err = Some(e.to_string()),
             }
         }
@@ -220,7 +235,7 @@ fn scenarios(prop: &str, rng: &mut Rng, thorough: bool) -> Vec<Scenario> {
         for &workers in if thorough { &[1u32, 2, 3, 4][..] } else { &[1u32, 3][..] } {
             let base = Scenario {
                 name: String::new(), kind: "lzma2r", input: vec![], expect: None, workers, dict, unit,
-                reads_before_drop: None, writes: vec![], finish: true, flush_at: None, may_ok: false, ok_only_with: None,
+                reads_before_drop: None, writes: vec![], finish: true, flush_at: None, may_ok: false, ok_only_with: None, preset: None, nice: None,
             };
             if prop == "C08" || prop == "C10" {
                 v.push(Scenario { name: format!("lzma2r-valid-{size}-w{workers}"), kind: "lzma2r", input: l2.clone(), expect: Some(data.clone()), ..base.clone() });
@@ -228,6 +243,43 @@ fn scenarios(prop: &str, rng: &mut Rng, thorough: bool) -> Vec<Scenario> {
                 let parts = { let (_, p) = gen_partition(rng, data.len()); p };
                 v.push(Scenario { name: format!("lzma2w-{size}-w{workers}"), kind: "lzma2w", input: data.clone(), writes: parts.clone(), flush_at: if rng.chance(1, 2) { Some(0) } else { None }, ..base.clone() });
                 v.push(Scenario { name: format!("lzipw-{size}-w{workers}"), kind: "lzipw", input: data.clone(), writes: parts.clone(), ..base.clone() });
+            }
+            if (prop == "C08" || prop == "C09" || prop == "C10") && size > 0 {
+                // total length an exact multiple of the unit (the tail unit is empty at finish), and flush directly
+                // before finish: every call must return and the output must decode
+                let whole = (data.len() / unit as usize).max(1) * unit as usize;
+                let mut d2 = data.clone();
+                d2.resize(whole, 0x41);
+                for k in ["lzma2w", "lzipw"] {
+                    v.push(Scenario { name: format!("{k}-exactunits-{size}-w{workers}"), kind: k, input: d2.clone(), writes: vec![whole / 2, whole - whole / 2], ..base.clone() });
+                    v.push(Scenario { name: format!("{k}-flushfinish-{size}-w{workers}"), kind: k, input: data.clone(), writes: vec![data.len()], flush_at: Some(0), ..base.clone() });
+                }
+            }
+            if (prop == "C08" || prop == "C10") && size > 0 {
+                // preset dictionary: MT writer over several units -> ST reader; ST writer -> MT reader
+                // (taken from the second unit's content, so that a unit compressed against it would really use it)
+                let preset: Vec<u8> = if data.len() > 8000 { data[4500..7500].to_vec() } else { data.iter().take(3000).cloned().collect() };
+                v.push(Scenario { name: format!("lzma2w-preset-{size}-w{workers}"), kind: "lzma2w", input: data.clone(), writes: vec![data.len()], preset: Some(preset.clone()), ..base.clone() });
+                let stp = {
+                    let mut lo = lz_opts(dict);
+                    lo.preset_dict = Some(preset.clone().into());
+                    let mut opts = LZMA2Options { lzma_options: lo, chunk_size: None };
+                    opts.set_chunk_size(NonZeroU64::new(unit));
+                    let mut w = LZMA2Writer::new(Vec::new(), opts);
+                    w.write_all(&data).unwrap();
+                    w.finish().unwrap()
+                };
+                v.push(Scenario { name: format!("lzma2r-preset-{size}-w{workers}"), kind: "lzma2r", input: stp, expect: Some(data.clone()), preset: Some(preset), ..base.clone() });
+            }
+            if (prop == "C09" || prop == "C10") && size > 0 {
+                // out-of-range options reach the workers (LZIPWriterMT::new does not validate): the error must come
+                // back from a call, and no call may block; less than one unit (finish reaches recv at once) and several
+                for k in ["lzma2w", "lzipw"] {
+                    for (tag, n) in [("small", 1000usize.min(data.len())), ("all", data.len())] {
+                        v.push(Scenario { name: format!("{k}-badnice-{tag}-{size}-w{workers}"), kind: k, input: data[..n].to_vec(), writes: vec![n], nice: Some(5), ..base.clone() });
+                        v.push(Scenario { name: format!("{k}-badnice-flush-{tag}-{size}-w{workers}"), kind: k, input: data[..n].to_vec(), writes: vec![n], flush_at: Some(0), nice: Some(5), ..base.clone() });
+                    }
+                }
             }
             if prop == "C10" {
                 for drop_at in [0usize, 1, 3] {
@@ -295,7 +347,7 @@ fn scenarios(prop: &str, rng: &mut Rng, thorough: bool) -> Vec<Scenario> {
             for workers in [1u32, 2] {
                 v.push(Scenario {
                     name: format!("lzma2r-maxchunk-w{workers}"), kind: "lzma2r", input: stream.clone(), expect: Some(data.clone()), workers, dict: 1 << 16, unit: 0,
-                    reads_before_drop: None, writes: vec![], finish: true, flush_at: None, may_ok: false, ok_only_with: None,
+                    reads_before_drop: None, writes: vec![], finish: true, flush_at: None, may_ok: false, ok_only_with: None, preset: None, nice: None,
                 });
             }
         }
